@@ -12,9 +12,9 @@
 (* Dec: Parser::decodeEntities on one reported slice, judged by XmlText!Decode: "yes" => succeeds with exactly that   *)
 (*   value; "undef" (reference to an entity that is not predefined) => fails or leaves the reference as it stands;    *)
 (*   "either" => no demand.                                                                                           *)
-(* Api: the three interfaces on the same bytes.  SAX = pull (verdict and tokens); a DOM exists only if pull accepted, *)
-(*   exists whenever pull accepted and every slice decoded, and then holds exactly the decoded pull tokens; nothing   *)
-(*   contains the replacement text of an internal or external entity.  If the event carries the generator's fields    *)
+(* Api: the three interfaces on the same bytes.  SAX = pull (verdict and tokens); a DOM exists only if pull accepted  *)
+(*   and then holds exactly the decoded pull tokens (a DOM builder that is STRICTER than the tokenizer on documents    *)
+(*   that are not well-formed is allowed); nothing contains the replacement text of an internal or external entity.  If the event carries the generator's fields    *)
 (*   (cls, xptoks, xdtoks, domcls, measures - copied from XmlDoc's case file) the document-level clauses are judged   *)
 (*   too:  "wf" within the limits => accepted, pull tokens = xptoks, DOM = xdtoks (domcls "yes"; for "undef" the DOM   *)
 (*   may also fail);  "unbal" => rejected by all three;  "wf" beyond a limit => rejected.                             *)
@@ -78,7 +78,6 @@ ApiWhy(e) ==
   IF e.expanded THEN "an internal or external entity was expanded"
   ELSE IF e.sok # e.pok \/ e.stoks # e.ptoks THEN "SAX reports something else than the pull interface"
   ELSE IF e.dok /\ ~e.pok THEN "DOM built from a document the pull interface rejects"
-  ELSE IF e.pok /\ e.decok /\ ~e.dok THEN "DOM builder fails on a document that parses and decodes"
   ELSE IF e.dok /\ e.decok /\ e.dtoks # e.pdtoks THEN "DOM differs from the decoded pull tokens"
   ELSE IF ~e.pok /\ ~(e.off >= 0 /\ e.off <= e.n) THEN "error offset outside the input"
   ELSE IF ~Gen(e) THEN ""
